@@ -5,6 +5,7 @@
 #ifdef SQFVM_RUNTIME_VERIF
 #include <chrono>
 #include <cstddef>
+#include <atomic>
 
 namespace sqf::runtime
 {
@@ -43,6 +44,7 @@ namespace sqf::runtime::verif
         size_t slice_len = 0;                                                     // H2 (0: default)
         void (*observe)(obs what, ::sqf::runtime::runtime& rt, size_t arg) = nullptr; // H3
         void (*at_sync)(sync where, ::sqf::runtime::runtime& rt) = nullptr;         // H4
+        std::atomic<size_t> frame_counter{ 0 };                                   // H3: frame identities
     };
     inline hooks& get()
     {
